@@ -34,7 +34,7 @@ def check(model, R, tier):
                     'buffers exist and update them iff training and tracking, for all 8 valuations; the batch counter is incremented once on that path; the update has the documented exponential / cumulative normal form with the '
                     'unbiased variance. The Bernoulli distribution of the mask and the numerical statistics are not decided.',
         assumptions=['np.random.rand draws i.i.d. U[0,1) elements', 'Module.train()/eval() are the only writers of self.training (C12.MODE)'],
-        technique='path-condition truth tables (8 valuations) + polynomial normal form of the update + def-use pattern rules')
+        technique='partial evaluation with path enumeration (layer + wrapper + kernel composed under 16 valuations) + polynomial normal form of output / stored terms')
 
 
 def check_dropout(model, R):
